@@ -209,7 +209,9 @@ var c09Units = []string{"year", "years", "month", "months", "week", "weeks", "da
 	"'a'", "'mo'", "'wk'", "'d'", "'h'", "'min'", "'s'", "'ms'", "'mg'", "'1'", "'kg'"}
 var c09Amounts = []string{"0", "1", "11", "12", "13", "23", "24", "25", "59", "60", "61", "365", "366", "1000", "1.5", "0.5",
 	// just below and at the multiples of the 30-day month and the 365-day year in days, weeks and hours
-	"29", "30", "31", "52", "53", "104", "360", "364", "729", "730", "8640", "8759", "8760"}
+	"29", "30", "31", "52", "53", "104", "360", "364", "729", "730", "8640", "8759", "8760",
+	// negative amounts, whole and fractional (the fraction is dropped towards zero, then the sign applies)
+	"-1", "-1.5", "-0.5", "-13", "-2.999"}
 
 func c09Values(env *core.Env) [][2]string {
 	var out [][2]string
